@@ -659,6 +659,22 @@ func init() {
 					}
 				}
 			}
+			if r.P(250) {
+				// a chatty process whose in-memory log (small log_length) drops its oldest lines
+				// many times while a client keeps reading windows of it
+				sc.Project.LogLength = Pick(r, 5, 20)
+				chat := &ProcSpec{Name: "chat", Token: "chat"}
+				scr := simos.Script{LifeMs: 8000, TermLagMs: 0}
+				genOutput(r, &scr, "chat", 0, sc.Project.LogLength+110)
+				sc.Scripts["chat"] = &TokenScript{Launches: []simos.Script{scr}}
+				sc.Project.Procs = append(sc.Project.Procs, chat)
+				var reads []Op
+				for i := r.Range(5, 15); i > 0; i-- {
+					reads = append(reads, Op{AtMs: whenMs(r, 8000), Op: "log", Arg: "chat", N: r.Range(0, 5), M: Pick(r, 0, 50, 200)})
+				}
+				sortOps(reads)
+				sc.Clients = append(sc.Clients, Client{Name: "lr", Ops: reads})
+			}
 			return sc
 		},
 		Check: func(sc *Scenario, res *RunResult, t *Truth) []Violation { return checkC20(sc, res, t) },
